@@ -80,11 +80,11 @@ func hashPrefix(p []int) uint32 {
 
 // RunOnce executes one schedule of a scenario.
 func RunOnce(sc *Scenario, prefix []int, trace bool) (*zzvsched.Exec, string, *Violation) {
+	body, check := sc.Make() // may install per-execution hooks in sc.Cfg
 	cfg := sc.Cfg
 	cfg.Prefix = prefix
 	cfg.Trace = trace
 	cfg.FP = !sc.NoFP
-	body, check := sc.Make()
 	ex := zzvsched.Run(cfg, body)
 	out, v := check(ex)
 	return ex, out, v
